@@ -376,6 +376,7 @@ pub fn check_frame(run: &mut Run, c: &FrameCheck, data: &[u8], frame: &[u8]) -> 
             run.oracle_checks += 1;
             if w.trailer != want {
                 ok = false;
+                run.fail("C08", "compressor_checksum", format!("{}: checksum trailer {} != low 32 bits of XXH64(input) {}", c.label, hex(&w.trailer), hex(&want)), c.replay.to_string());
                 fail_all(run, c.st_props, "checksum", format!("{}: checksum trailer {} != low 32 bits of XXH64(input) {}", c.label, hex(&w.trailer), hex(&want)), c.replay);
                 fail_all(run, c.rt_props, "checksum", format!("{}: checksum trailer {} != low 32 bits of XXH64(input) {}", c.label, hex(&w.trailer), hex(&want)), c.replay)
             }
@@ -580,6 +581,12 @@ pub fn directed_inputs(rng: &mut Rng, thorough: bool) -> Vec<(String, Vec<u8>)> 
         }
         d.truncate(BLOCK - 1);
         v.push((format!("many-offset-codes {}..={} x{}", codes_lo, codes_hi, per), d));
+    }
+    // exact literal counts at the boundaries of the literals-section size formats (1023/1024, 16383/16384): 64 equally
+    // likely values, so Huffman coding pays off and (almost surely) no 5-byte match exists: all bytes are literals
+    for &n in &[1023usize, 1024, 1025, 16383, 16384, 16384, 16384, 16385] {
+        let d: Vec<u8> = (0..n).map(|_| 32 + rng.below(64) as u8).collect();
+        v.push((format!("exact-literals n={}", n), d));
     }
     // small ABSOLUTE byte values with unused values in between (direct weight description, odd / even number of
     // weights, zero weights next to the last listed one)
@@ -837,8 +844,27 @@ pub fn run(opts: &Opts) -> Run {
                 cur = lvl;
             }
             let frags = frag_scripts(&mut rng, data.len());
-            comp.set_source(FragReader::new(&data, &frags));
-            comp.set_drain(Vec::new());
+            // the three ways the API offers to give a reused compressor its next input: `set_source`, assignment
+            // through `source_mut()`, `take_source` + `set_source`; (per-frame state must be
+            // reset by `compress()` itself, whichever way the caller went)
+            let how = if k == 0 { 0 } else { (h + k as usize) % 3 };
+            match how {
+                1 => *comp.source_mut().unwrap() = FragReader::new(&data, &frags),
+                2 => {
+                    let _ = comp.take_source();
+                    comp.set_source(FragReader::new(&data, &frags));
+                }
+                _ => {
+                    comp.set_source(FragReader::new(&data, &frags));
+                }
+            }
+            match comp.drain_mut() {
+                Some(d) => *d = Vec::new(),
+                None => {
+                    comp.set_drain(Vec::new());
+                }
+            }
+            run.stat(&format!("reuse_source_given_by_{}", ["set_source", "source_mut", "take_then_set"][how]), 1);
             let label = format!("reuse history={} frame={} ", h, k);
             let cref = &mut comp;
             jobs.push(format!("{}:{}:{}", lvl.tag(), hex(&data), frags_str(&frags)));
@@ -859,6 +885,13 @@ pub fn run(opts: &Opts) -> Run {
             super::c16::run_case(&mut run, &case, opts.seed + k as u64, ctx.spec_limit.min(12_000), &mut ctx.spec_budget, &["C02"], &["C15"]);
             run.stat("user_matcher_small_window_cases", 1);
         }
+    }
+    // … and whose window_size() the window descriptor cannot express exactly, with matches at the full window: the header
+    // must not declare less than the matcher uses ("every match offset within the declared window", C15)
+    for (k, w) in [200_000u64, 131_073].into_iter().enumerate() {
+        let case = super::c16::window_edge_case(&mut rng, w);
+        super::c16::run_case(&mut run, &case, opts.seed + 50 + k as u64, 0, &mut ctx.spec_budget, &["C02"], &["C15"]);
+        run.stat("user_matcher_window_edge_cases", 1);
     }
     run.stat("spec_budget_left", ctx.spec_budget as u64);
     run
